@@ -90,6 +90,69 @@ def run(seed, tier, driver):
             for code, flag in ((14, 0x90), (15, 0x90), (29, 0x90), (40, 0xd0), (16, 0xd0), (22, 0xd0), (23, 0xd0), (8, 0xd0)):
                 blk = bytes([flag, code]) + struct.pack('!H', len(b)) + b                # as the value of one attribute
                 bodies.append(struct.pack('!H', 0) + struct.pack('!H', len(blk)) + blk)
+    # inner truncations: the value of one attribute cut at EVERY position while all outer length fields stay consistent, so
+    # that the cut reaches the decoder of the family (an NLRI that ends after its length / type octet, a TLV header without
+    # body, ...) instead of being rejected by the outer walker
+    inner = []
+    for b in lits:
+        if b[:16] == b'\xff' * 16 or not (4 <= len(b) <= (160 if tier == 'quick' else 1200)):
+            continue
+        for code, flag in ((14, 0x90), (15, 0x90), (29, 0x90), (40, 0xd0), (16, 0xd0), (22, 0xd0), (23, 0xd0), (8, 0xd0), (32, 0xd0)):
+            whole = bytes([flag, code]) + struct.pack('!H', len(b)) + b
+            d0 = I.upd_parse(struct.pack('!H', 0) + struct.pack('!H', len(whole)) + whole, True, False)
+            if d0.get('sub_error', 1) is not None:
+                continue        # this literal is not a value of this attribute
+            for cut in range(0, len(b)):
+                blk = bytes([flag, code]) + struct.pack('!H', cut) + b[:cut]
+                inner.append(struct.pack('!H', 0) + struct.pack('!H', len(blk)) + blk)
+    # the same on messages of EVERY family the agent can construct (the generators of suites/construct.py, encoded by the
+    # real constructors): each attribute of each message cut at every position
+    try:
+        from suites import construct as CS
+        import impl_construct as IC
+        fam_cases = CS.srte_cases() + CS.tunnel_cases(r, 30) + CS.pmsi_cases() + CS.fs6_cases(r, 40) + \
+            [c[:4] for c in CS.mp_cases(r, 'quick')] + CS.evf_cases(r, 'quick') + CS.extcomm_cases()
+        if tier == 'quick':
+            fam_cases = r.sample(fam_cases, min(len(fam_cases), 700))
+        built = 0
+        for (family, msg, asn4, addpath) in fam_cases:
+            out = IC.update_construct(msg, asn4, addpath)
+            if not isinstance(out, dict) or 'hex' not in out:
+                continue
+            wire = bytes.fromhex(out['hex'])
+            body = wire[19:]
+            if len(body) < 4 or len(body) > 700:
+                continue
+            wl = struct.unpack('!H', body[:2])[0]
+            al = struct.unpack('!H', body[2 + wl:4 + wl])[0]
+            attrs = body[4 + wl:4 + wl + al]
+            # split into attribute TLVs
+            tl = []
+            a = attrs
+            while len(a) >= 3:
+                hl = 4 if a[0] & 0x10 else 3
+                ln = struct.unpack('!H', a[2:4])[0] if a[0] & 0x10 else a[2]
+                tl.append((a[:2], a[hl:hl + ln]))
+                a = a[hl + ln:]
+            built += 1
+            for i, (hd, val) in enumerate(tl):
+                if hd[1] not in (14, 15, 16, 22, 23, 29, 40):
+                    continue
+                cuts = range(len(val)) if len(val) <= 80 else sorted(set(list(range(0, 40)) + r.sample(range(40, len(val)), 40)))
+                for cut in cuts:
+                    nv = val[:cut]
+                    blk = bytes([hd[0] | 0x10, hd[1]]) + struct.pack('!H', len(nv)) + nv
+                    na = b''.join((bytes([h[0] | 0x10, h[1]]) + struct.pack('!H', len(v)) + v) if j != i else blk
+                                  for j, (h, v) in enumerate(tl))
+                    inner.append(struct.pack('!H', 0) + struct.pack('!H', len(na)) + na)
+        res.stats.hit('inner_truncation_sources', built)
+    except ImportError as e:       # the construct suite is optional for this one
+        res.notes.append('inner truncations of constructed families skipped: %s' % e)
+    if tier == 'quick' and len(inner) > 6000:
+        inner = r.sample(inner, 6000)
+    res.stats.hit('inner_truncations', len(inner))
+    for b in inner:
+        upd_cases.append((b, True, False, 'inner_truncation'))
     res.stats.hit('corpus_bodies', len(bodies))
     if tier == 'quick':
         r.shuffle(bodies)
